@@ -70,10 +70,21 @@ def case_key(case):
 
 def _work_wrapper(args):
     modname, task = args
+    import signal
+
+    # pkgcore.ebuild.processor installs SIGTERM/SIGINT handlers raising SystemExit/KeyboardInterrupt;
+    # a worker must die when told to
     mod = importlib.import_module(modname)
+    try:
+        signal.signal(signal.SIGTERM, signal.SIG_DFL)
+        signal.signal(signal.SIGINT, signal.SIG_DFL)
+    except ValueError:
+        pass
     t0 = time.time()
     try:
         res = mod.work(task)
+    except (SystemExit, KeyboardInterrupt):
+        raise
     except BaseException as e:  # an engine error, not a violation
         return {"error": f"{type(e).__name__}: {e}\n{traceback.format_exc()}", "task": repr(task)[:300]}
     res.setdefault("evals", 0)
